@@ -840,3 +840,32 @@ func (g *tsrun) ImportEqualsCase() tsCase {
 	c.Desc = "namespace aliases"
 	return c
 }
+
+// EnumMergeCase: an enum merged with a namespace of the same name (declaration merging). Inside the enum body a bare
+// identifier that is not an enum member refers to the *enclosing* scope (or a global), never to an export of the merged
+// namespace; inside the namespace body the enum members are not in scope either. References are the tsc emit, spelled out.
+func (g *tsrun) EnumMergeCase() tsCase {
+	g.k = 0
+	c := tsCase{Kind: "enum-namespace-merge", TS: map[string]string{}, JS: map[string]string{}, Entry: "/main", Module: false}
+	v := g.rng.Intn(4)
+	n1, n2 := 2+g.rng.Intn(9), 20+g.rng.Intn(70)
+	var ts, js string
+	switch v {
+	case 0: // enum first, outer const shadowed by a namespace export of the same name
+		ts = fmt.Sprintf("const Max = $(1, %d);\nenum E { A = 1, B = Max, C = Max + 1 }\nnamespace E { export const Max = $(2, %d); export function helper() { return $(3, 7); } }\n$(4, E.A, E.B, E.C, E[%d], E.Max, E.helper());\n", n1, n2, n1)
+		js = fmt.Sprintf("const Max = $(1, %d);\nvar E; (function (E) { E[E[\"A\"] = 1] = \"A\"; E[E[\"B\"] = Max] = \"B\"; E[E[\"C\"] = Max + 1] = \"C\"; })(E || (E = {}));\n(function (E) { E.Max = $(2, %d); function helper() { return $(3, 7); } E.helper = helper; })(E || (E = {}));\n$(4, E.A, E.B, E.C, E[%d], E.Max, E.helper());\n", n1, n2, n1)
+	case 1: // the name is a global function outside, an exported function inside the namespace; a free name stays free
+		ts = fmt.Sprintf("function lim() { return $(1, %d); }\nenum F { X = lim(), Y = X * 2, Z = typeof base === \"undefined\" ? 0 : 1 }\nnamespace F { export function lim() { return $(2, %d); } export let base = $(3, 100); }\n$(4, F.X, F.Y, F.Z, F.lim(), F.base);\n", n1, n2)
+		js = fmt.Sprintf("function lim() { return $(1, %d); }\nvar F; (function (F) { F[F[\"X\"] = lim()] = \"X\"; F[F[\"Y\"] = F.X * 2] = \"Y\"; F[F[\"Z\"] = typeof base === \"undefined\" ? 0 : 1] = \"Z\"; })(F || (F = {}));\n(function (F) { function lim() { return $(2, %d); } F.lim = lim; F.base = $(3, 100); })(F || (F = {}));\n$(4, F.X, F.Y, F.Z, F.lim(), F.base);\n", n1, n2)
+	case 2: // nested in a namespace
+		ts = fmt.Sprintf("namespace Outer { const step = $(1, %d); export enum G { P = step, Q = P + step } export namespace G { export const step = $(2, %d); } $(3, G.P, G.Q, G.step); }\n$(4, Outer.G.P, Outer.G.Q, Outer.G.step);\n", n1, n2)
+		js = fmt.Sprintf("var Outer; (function (Outer) { const step = $(1, %d); let G; (function (G) { G[G[\"P\"] = step] = \"P\"; G[G[\"Q\"] = G.P + step] = \"Q\"; })(G = Outer.G || (Outer.G = {})); (function (G) { G.step = $(2, %d); })(G = Outer.G || (Outer.G = {})); $(3, G.P, G.Q, G.step); })(Outer || (Outer = {}));\n$(4, Outer.G.P, Outer.G.Q, Outer.G.step);\n", n1, n2)
+	default: // two enum blocks and a namespace: members of the sibling enum block are visible, namespace exports are not
+		ts = fmt.Sprintf("var extra = $(1, %d);\nenum H { A = 1 }\nnamespace H { export var extra = $(2, %d); export const A2 = 5; }\nenum H { B = A + extra, C = extra }\n$(3, H.A, H.B, H.C, H.extra, H.A2);\n", n1, n2)
+		js = fmt.Sprintf("var extra = $(1, %d);\nvar H; (function (H) { H[H[\"A\"] = 1] = \"A\"; })(H || (H = {}));\n(function (H) { H.extra = $(2, %d); H.A2 = 5; })(H || (H = {}));\n(function (H) { H[H[\"B\"] = H.A + extra] = \"B\"; H[H[\"C\"] = extra] = \"C\"; })(H || (H = {}));\n$(3, H.A, H.B, H.C, H.extra, H.A2);\n", n1, n2)
+	}
+	c.TS["/main.ts"] = ts
+	c.JS["/main.js"] = js
+	c.Desc = fmt.Sprint("enum merged with namespace, shape ", v)
+	return c
+}
